@@ -14,7 +14,7 @@ TT_STATIC = "board::transposition_table::TRANSPOSITION_TABLE"
 ATOMIC_STORE = "std::sync::atomic::Atomic::store"
 ATOMIC_LOAD = "std::sync::atomic::Atomic::load"
 
-WRAPPERS = ("::expect", "::unwrap", "::deref_mut", "::deref", "::borrow_mut", "::as_mut")
+WRAPPERS = ("::expect", "::unwrap", "::unwrap_or_else", "::deref_mut", "::deref", "::borrow_mut", "::as_mut")
 
 
 def persistent_statics(ix):
